@@ -10,11 +10,15 @@ stopped.  Calls made on a machine from inside its own actions are rejected witho
 state."
 
 `Mach n` = a machine with at most `n` levels of sub-machines below it; every theorem quantifies
-over all `n`, all machines of that depth and all call sequences.  The model is
-`exec true` (state_machine.cpp with patches/C16-01); `exec false` is the code as found.
+over all `n`, all machines of that depth and all call sequences.  The model (`exec`) is
+state_machine.cpp with patches/C16-01 and C16-02; the code without them is `aCall` of Arena.lean
+with the corresponding `Fix`, where the counterexamples are proved.  Callbacks may observe and
+call their own machine and every ancestor; other targets are `foreign` to these theorems (the
+arena model executes them, tied to the C++ by the differential check only).
 -/
 import TboxModel.C16.Exec
 import TboxModel.C16.Order
+import TboxModel.C16.Arena
 set_option linter.unusedSimpArgs false
 set_option linter.unusedVariables false
 namespace Tbox.C16
@@ -27,15 +31,15 @@ same global trace (guard evaluations, handlers, exit/action/enter, notifications
 observations) and the same `currentState/lastState/nextState/isRunning/isTerminated` after every
 call, and end in corresponding states. -/
 theorem C16_conforms (n : Nat) (m : Mach n) (hm : Inv n m) (calls : List Call) :
-    (exec true n m calls).2 = (Spec.exec n (abs n m) calls).2 ∧
-    abs n (exec true n m calls).1 = (Spec.exec n (abs n m) calls).1 ∧
-    Inv n (exec true n m calls).1 := by
+    (exec n m calls).2 = (Spec.exec n (abs n m) calls).2 ∧
+    abs n (exec n m calls).1 = (Spec.exec n (abs n m) calls).1 ∧
+    Inv n (exec n m calls).1 := by
   induction calls generalizing m with
   | nil => exact ⟨rfl, rfl, hm⟩
   | cons c cs ih =>
     have h1 := applyCall_inv n m c hm
     have h2 := applyCall_ref n m c hm
-    have ih' := ih (applyCall true n m c).1 h1.1
+    have ih' := ih (applyCall n m c).1 h1.1
     have hv := rootView_abs n _ h1.1
     simp only [exec, Spec.exec]
     rw [← h2]
@@ -43,18 +47,22 @@ theorem C16_conforms (n : Nat) (m : Mach n) (hm : Inv n m) (calls : List Call) :
     exact ⟨by rw [ih'.1, hv], ih'.2.1, ih'.2.2⟩
 
 theorem C16_conforms_fresh (n : Nat) (m : Mach n) (hm : Fresh n m) (calls : List Call) :
-    (exec true n m calls).2 = (Spec.exec n (abs n m) calls).2 :=
+    (exec n m calls).2 = (Spec.exec n (abs n m) calls).2 :=
   (C16_conforms n m (fresh_inv n m hm).1 calls).1
 
 /-! ### C16_reentrancy_rejected -/
 
-/-- **Re-entrancy.** Every call a callback makes on its own machine (at any nesting level, in
-any call of any sequence) returns false and the five observers read the same before and after;
-the behaviour the model leaves undescribed (`unmodelled`) never occurs. -/
+/-- **Re-entrancy, whole hierarchy.** Every call (`start/stop/restart/run`) that a callback of
+any machine of the hierarchy makes on its own machine OR ON ANY OF ITS ANCESTORS — all of which
+are inside a call at that moment: the parent is delegating the event, starting or stopping the
+sub-machine — returns false, and the five observers of the addressed machine read the same
+before and after; the behaviour the model leaves undescribed (`unmodelled`: a call let through
+by the entry checks, a null `curr_state_`) never occurs.  (Without patches/C16-02 this is false:
+`C16_reentrancy_counterexample_unpatched`.) -/
 theorem C16_reentrancy_rejected (n : Nat) (m : Mach n) (hm : Inv n m) (calls : List Call) :
-    ∀ r ∈ (exec true n m calls).2, ∀ ev ∈ r.2.1,
+    ∀ r ∈ (exec n m calls).2, ∀ ev ∈ r.2.1,
       match ev.kind with
-      | .call _ res before after => res = false ∧ after = before
+      | .call _ _ res before after => res = false ∧ after = before
       | .unmodelled => False
       | _ => True := by
   induction calls generalizing m with
@@ -74,7 +82,7 @@ for the root and recursively for every sub-machine (with its part of the global 
 every state `s`, #entered s − #exited s = 1 if `s` is the machine's current state, else 0.
 (`enter`/`exit` events are counted whether or not the user supplied a callback.) -/
 theorem C16_balanced (n : Nat) (m : Mach n) (hm : Fresh n m) (calls : List Call) :
-    Bal n (exec true n m calls).1 (allTrace (exec true n m calls).2) := by
+    Bal n (exec n m calls).1 (allTrace (exec n m calls).2) := by
   have h := fresh_inv n m hm
   simpa using exec_bal n m h.1 [] h.2.2 calls
 
@@ -83,8 +91,8 @@ root is not running (e.g. the sequence ends with `stop`), then at every nesting 
 has been exited exactly as often as it was entered — in particular no sub-machine is left
 running. -/
 theorem C16_balanced_after_stop (n : Nat) (m : Mach n) (hm : Fresh n m) (calls : List Call)
-    (hstopped : (rootRt n (exec true n m calls).1).running = false) :
-    AllExited n (exec true n m calls).1 (allTrace (exec true n m calls).2) := by
+    (hstopped : (rootRt n (exec n m calls).1).running = false) :
+    AllExited n (exec n m calls).1 (allTrace (exec n m calls).2) := by
   have h := fresh_inv n m hm
   have hi := (C16_conforms n m h.1 calls).2.2
   refine stopped_allExited n _ _ hi ?_ (C16_balanced n m hm calls)
@@ -93,15 +101,75 @@ theorem C16_balanced_after_stop (n : Nat) (m : Mach n) (hm : Fresh n m) (calls :
   | succ k => exact hstopped
 
 
-/-! ### the defect (DESIGN §7 row 9): the code as found violates the balance -/
+/-! ### the defects: the code without the patches violates the statement (arena model, `Fix`) -/
+
+def leaf (k : Nat) (sid : StateId) : ARec :=
+  { mid := k, init := sid, cb := none, rt := {},
+    states := [{ id := sid, enter := some [], exit := some [], routes := [], events := [], dflt := none, sub := none }] }
+
+/-- machine 1 = one state whose sub-machine is machine 0 (one state) -/
+def cexArena : Arena :=
+  [leaf 0 1,
+   { mid := 1, init := 1, cb := none, rt := {},
+     states := [{ id := 1, enter := some [], exit := some [], routes := [], events := [], dflt := none, sub := some 0 }] }]
+
+def aSeq (fix : Fix) (g : Arena) (k : Nat) : List Call → Arena × ATrace
+  | [] => (g, [])
+  | c :: cs => let r := aCall fix (fuelFor g) g k c; let x := aSeq fix r.1 k cs; (x.1, r.2.2 ++ x.2)
+
+def countOf (p : Kind → Bool) (k : Nat) (t : ATrace) : Nat := (t.filter fun ev => ev.mid == k && p ev.kind).length
+
+/-- **DESIGN §7 row 9, code as found in round 1** (`Fix` = none): `start(); stop()` on a machine
+whose initial state has a sub-machine leaves the root stopped while the sub-machine is still
+running, its state 1 entered once and never exited; a second `start()` does not enter it again. -/
+theorem C16_balanced_counterexample_unpatched :
+    let r := aSeq ⟨false, false⟩ cexArena 1 [.start, .stop]
+    (r.1.get 1).rt.running = false ∧ (r.1.get 0).rt.running = true ∧
+    countOf (fun k => match k with | .enter 1 _ _ => true | _ => false) 0 r.2 = 1 ∧
+    countOf (fun k => match k with | .exit 1 _ _ => true | _ => false) 0 r.2 = 0 ∧
+    countOf (fun k => match k with | .enter 1 _ _ => true | _ => false) 0
+      (aSeq ⟨false, false⟩ cexArena 1 [.start, .stop, .start]).2 = 1 := by
+  decide
+
+/-- machine 0: state 1 --ev 1--> terminal state; its state-changed callback calls `run(2)` on
+machine 1, the parent, whose state 1 carries machine 0 and which goes 1 --ev 2--> 2 -/
+def cexUp : Arena :=
+  [{ mid := 0, init := 1, cb := some [.call (some 1) (.run ⟨2, 0⟩)], rt := {},
+     states := [{ id := 1, enter := none, exit := none, routes := [⟨1, 0, none, none⟩], events := [], dflt := none, sub := none }] },
+   { mid := 1, init := 1, cb := none, rt := {},
+     states := [{ id := 1, enter := none, exit := none, routes := [⟨2, 2, none, none⟩], events := [], dflt := none, sub := some 0 },
+                { id := 2, enter := none, exit := none, routes := [], events := [], dflt := none, sub := none }] }]
+
+def isAcceptedCall (k : Kind) : Bool :=
+  match k with
+  | .call _ _ res before after => res || before != after
+  | _ => false
+
+/-- **Code as found in round 2** (patches/C16-01 only): while the parent's `run(1)` is delegating
+to the sub-machine, the sub-machine's state-changed callback calls `parent.run(2)`; the call is
+ACCEPTED (returns true) and moves the parent from state 1 to state 2 under its own running
+`run()`, which then dereferences the sub-machine pointer of state 2 — null (`unmodelled`; the C++
+crashes there: replay in corpus/C16).  With patches/C16-02 the same call is rejected and nothing
+is left undescribed. -/
+theorem C16_reentrancy_counterexample_unpatched :
+    let bad := aSeq ⟨true, false⟩ cexUp 1 [.start, .run ⟨1, 0⟩]
+    let good := aSeq Fix.all cexUp 1 [.start, .run ⟨1, 0⟩]
+    (bad.2.any fun ev => isAcceptedCall ev.kind) = true ∧
+    (bad.2.any fun ev => ev.kind == .unmodelled) = true ∧
+    (bad.1.get 1).rt.curr = some 2 ∧
+    (good.2.any fun ev => isAcceptedCall ev.kind) = false ∧
+    (good.2.any fun ev => ev.kind == .unmodelled) = false ∧
+    (good.2.any fun ev => match ev.kind with | .call (some 1) _ false _ _ => true | _ => false) = true := by
+  decide
+
+/-! the same definitions as trees, for the non-vacuity examples of the theorems above -/
 
 def cexSub : Mach 0 :=
-  { init := 1, cb := none, rt := {},
+  { mid := 0, init := 1, cb := none, rt := {},
     states := [{ id := 1, enter := some [], exit := some [], routes := [], events := [], dflt := none, sub := none }] }
 
-/-- one state whose sub-machine has one state -/
 def cexRoot : Mach 1 :=
-  { init := 1, cb := none, rt := {},
+  { mid := 1, init := 1, cb := none, rt := {},
     states := [{ id := 1, enter := some [], exit := some [], routes := [], events := [], dflt := none, sub := some cexSub }] }
 
 theorem cexRoot_fresh : Fresh 1 cexRoot := by
@@ -117,38 +185,25 @@ theorem cexRoot_fresh : Fresh 1 cexRoot := by
       exact ⟨rfl, fun sid st x _ _ => x.elim⟩
     · simp at hf
 
-/-- **Counterexample on the unpatched code** (`exec false`): `start(); stop()` on a machine whose
-initial state has a sub-machine leaves the root stopped while state 1 of the sub-machine has been
-entered once and never exited, the sub-machine is still running, and a second `start()` does not
-enter the sub-machine's initial state again (its `start()` is refused). -/
-theorem C16_balanced_counterexample_unpatched :
-    (rootRt 1 (exec false 1 cexRoot [.start, .stop]).1).running = false ∧
-    ownDelta 1 (subTrace 1 (allTrace (exec false 1 cexRoot [.start, .stop]).2)) = 1 ∧
-    ((exec false 1 cexRoot [.start, .stop]).1.states.map (fun s => s.sub.map (fun x => x.rt.running))) = [some true] ∧
-    subTrace 1 (allTrace (exec false 1 cexRoot [.start, .stop, .start]).2) = [⟨[], .enter 1 0 true⟩] := by
-  decide
-
 /-- non-vacuity of the hypotheses `Fresh` / `Inv` used above -/
 example : Fresh 1 cexRoot ∧ Inv 1 cexRoot := ⟨cexRoot_fresh, (fresh_inv 1 cexRoot cexRoot_fresh).1⟩
 
-/-- hence the full-strength statement is false of the code as found -/
-theorem C16_balanced_after_stop_false_unpatched :
-    ¬ (∀ (n : Nat) (m : Mach n), Fresh n m → ∀ calls,
-        (rootRt n (exec false n m calls).1).running = false →
-        AllExited n (exec false n m calls).1 (allTrace (exec false n m calls).2)) := by
-  intro h
-  have h1 := h 1 cexRoot cexRoot_fresh [.start, .stop] C16_balanced_counterexample_unpatched.1
-  have hst : ∃ st x, (exec false 1 cexRoot [.start, .stop]).1.findState 1 = some st ∧ st.sub = some x :=
-    ⟨_, _, rfl, rfl⟩
-  obtain ⟨st, x, hf, hs⟩ := hst
-  have h2 := (h1.2 1 st x hf hs).1 1
-  have h3 := C16_balanced_counterexample_unpatched.2.1
-  rw [h3] at h2
-  exact absurd h2 (by decide)
+/-- with the repairs the sequence of the first counterexample is balanced -/
+example : ownDelta 1 (subTrace 1 (allTrace (exec 1 cexRoot [.start, .stop]).2)) = 0 ∧
+    (rootRt 1 (exec 1 cexRoot [.start, .stop]).1).running = false := by decide
 
-/-- with the repair the same sequence is balanced (non-vacuity of `C16_balanced_after_stop`) -/
-example : ownDelta 1 (subTrace 1 (allTrace (exec true 1 cexRoot [.start, .stop]).2)) = 0 ∧
-    (rootRt 1 (exec true 1 cexRoot [.start, .stop]).1).running = false := by decide
+/-- `cexUp` as a tree: the upward call is made and rejected (non-vacuity of `C16_reentrancy_rejected`) -/
+def cexUpSub : Mach 0 :=
+  { mid := 0, init := 1, cb := some [.call (some 1) (.run ⟨2, 0⟩)], rt := {},
+    states := [{ id := 1, enter := none, exit := none, routes := [⟨1, 0, none, none⟩], events := [], dflt := none, sub := none }] }
+
+def cexUpTree : Mach 1 :=
+  { mid := 1, init := 1, cb := none, rt := {},
+    states := [{ id := 1, enter := none, exit := none, routes := [⟨2, 2, none, none⟩], events := [], dflt := none, sub := some cexUpSub },
+               { id := 2, enter := none, exit := none, routes := [], events := [], dflt := none, sub := none }] }
+
+example : ((allTrace (exec 1 cexUpTree [.start, .run ⟨1, 0⟩]).2).any fun ev =>
+    match ev.kind with | .call (some 1) (.run ⟨2, 0⟩) false _ _ => true | _ => false) = true := by decide
 
 /-! ### C16_first_match -/
 
@@ -156,12 +211,12 @@ example : ownDelta 1 (subTrace 1 (allTrace (exec true 1 cexRoot [.start, .stop])
 registration order) is eligible — its event is `e` or the wildcard and its guard (if any) holds —
 and no route registered before it is eligible; if it selects none, no route is eligible.  (By
 `C16_conforms` this is also the route of the reference semantics, `Spec.chosen`.) -/
-theorem C16_first_match (sid : StateId) (rt : Rt) (e : EventId) (rs : List Route) :
-    match (routeScan sid rt e 0 rs).1 with
+theorem C16_first_match (sid : StateId) (self : Nat) (rt : Rt) (ctx : Ctx) (e : Event) (rs : List Route) :
+    match (routeScan sid self rt ctx e 0 rs).1 with
     | some (i, r) => rs[i]? = some r ∧ eligible r e = true ∧ ∀ r' ∈ rs.take i, eligible r' e = false
     | none => ∀ r' ∈ rs, eligible r' e = false := by
-  have := routeScan_first sid rt e 0 rs
-  cases h : (routeScan sid rt e 0 rs).1 with
+  have := routeScan_first sid self rt ctx e 0 rs
+  cases h : (routeScan sid self rt ctx e 0 rs).1 with
   | none => rw [h] at this; exact this
   | some ir =>
     obtain ⟨i, r⟩ := ir
@@ -170,7 +225,7 @@ theorem C16_first_match (sid : StateId) (rt : Rt) (e : EventId) (rs : List Route
     exact this.2
 
 /-- non-vacuity: a later specific route wins over an earlier wildcard whose guard fails -/
-example : (routeScan 1 {} 2 0
+example : (routeScan 1 0 {} [] ⟨2, 0⟩ 0
     [⟨0, 3, some ⟨[5], []⟩, none⟩, ⟨1, 4, none, none⟩, ⟨2, 5, some ⟨[2], []⟩, none⟩, ⟨0, 6, none, none⟩]).1
     = some (2, ⟨2, 5, some ⟨[2], []⟩, none⟩) := by decide
 
@@ -182,17 +237,17 @@ the event was refused, consumed by the sub-machine, or matched nothing), or exac
 transition `a → b`: its own phase events are, in this order and once each, exit `a`, the
 transition action, enter `b`, the state-changed notification `a → b`.  (Sub-machines are
 machines: the statement applies to them at their own level.) -/
-theorem C16_order_once (n : Nat) (m : Mach n) (e : EventId) :
-    OrderOnce (rootRt n m).curr (rootRt n ((subOps true n).run m e).1).curr e ((subOps true n).run m e).2.2 := by
+theorem C16_order_once (n : Nat) (ctx : Ctx) (m : Mach n) (e : Event) :
+    OrderOnce (rootRt n m).curr (rootRt n ((subOps n).run ctx m e).1).curr e ((subOps n).run ctx m e).2.2 := by
   cases n with
-  | zero => exact run_order emptyOps m e
-  | succ k => exact run_order (subOps true k) m e
+  | zero => exact run_order emptyOps ctx m e
+  | succ k => exact run_order (subOps k) ctx m e
 
 /-- non-vacuity: `cexRoot` extended with a route does take a transition with all four phases -/
-example : phases ((subOps true 0).run
-      ({ init := 1, cb := some [], rt := { running := true, curr := some 1 },
-         states := [{ id := 1, enter := none, exit := some [.obs], routes := [⟨0, 0, none, some []⟩], events := [],
-                      dflt := none, sub := none }] } : Mach 0) 7).2.2
-    = [.exit 1 7 true, .action 1 (some 0) 7 true, .enter 0 7 false, .notify 1 0 7 true] := by decide
+example : phases ((subOps 0).run []
+      ({ mid := 0, init := 1, cb := some [], rt := { running := true, curr := some 1 },
+         states := [{ id := 1, enter := none, exit := some [.obs none], routes := [⟨0, 0, none, some []⟩], events := [],
+                      dflt := none, sub := none }] } : Mach 0) ⟨7, 3⟩).2.2
+    = [.exit 1 ⟨7, 3⟩ true, .action 1 (some 0) ⟨7, 3⟩ true, .enter 0 ⟨7, 3⟩ false, .notify 1 0 ⟨7, 3⟩ true] := by decide
 
 end Tbox.C16
